@@ -980,6 +980,77 @@ impl BTree {
 //@end
 }
 
+// ================================================================== tree level: the scan cursor over the leaf chain
+//@item nervusdb-storage/src/index/btree.rs struct BTreeCursor
+/// k-th leaf of the sibling chain that starts at leaf `l` (0 once the chain has ended)
+pub open spec fn leaf_at(p: &Pager, l: u64, k: nat) -> u64
+    decreases k
+{
+    if k == 0 { l } else {
+        let prev = leaf_at(p, l, (k - 1) as nat);
+        if prev == 0 { 0 } else { from_le64(pg(p, prev).subrange(16, 24)) }
+    }
+}
+impl<'a> BTreeCursor<'a> {
+    /// the cursor holds a faithful copy of a well-formed leaf of the store
+    pub open spec fn ok(&self) -> bool {
+        self.buf@ == pg(self.pager, self.leaf.0) && pg_kind_ok(self.buf@) && self.buf@[4] == 0 && leaf_wf(self.buf@)
+            && self.slot <= pg_count(self.buf@) && self.leaf.0 != 0
+    }
+    /// moving from `o` the cursor skipped only empty leaves and stands on the first entry of leaf number n of the chain
+    pub open spec fn skipped_to(o: &BTreeCursor<'a>, n_: &BTreeCursor<'a>, n: nat) -> bool {
+        n >= 1 && n_.leaf.0 == leaf_at(o.pager, o.leaf.0, n) && n_.slot == 0 && n_.leaf.0 != 0
+            && forall|j: nat| 1 <= j < n ==> leaf_at(o.pager, o.leaf.0, j) != 0 && pg_count(pg(o.pager, #[trigger] leaf_at(o.pager, o.leaf.0, j))) == 0
+    }
+    /// from `o` on there is no further entry: every later leaf of the chain is empty and the chain ends
+    pub open spec fn exhausted(o: &BTreeCursor<'a>, n: nat) -> bool {
+        leaf_at(o.pager, o.leaf.0, n + 1) == 0
+            && forall|j: nat| 1 <= j <= n ==> leaf_at(o.pager, o.leaf.0, j) != 0 && pg_count(pg(o.pager, #[trigger] leaf_at(o.pager, o.leaf.0, j))) == 0
+    }
+
+//@extract nervusdb-storage/src/index/btree.rs BTreeCursor::is_valid ret r
+//@| requires old(self).ok(),
+//@| ensures *final(self) == *old(self), r is Ok, r->Ok_0 == (old(self).slot < pg_count(old(self).buf@)),
+//@end
+//@extract nervusdb-storage/src/index/btree.rs BTreeCursor::key ret r
+//@| requires old(self).ok(), keys_sorted(leaf_cells(old(self).buf@)),
+//@| ensures *final(self) == *old(self), r is Ok <==> old(self).slot < pg_count(old(self).buf@),
+//@|     r is Ok ==> r->Ok_0@ == leaf_cells(old(self).buf@)[old(self).slot as int].0,
+//@prewrite "Ok(k.to_vec())" => "Ok(v_slice_to_vec(k))"
+//@end
+//@extract nervusdb-storage/src/index/btree.rs BTreeCursor::payload ret r
+//@| requires old(self).ok(),
+//@| ensures *final(self) == *old(self), r is Ok <==> old(self).slot < pg_count(old(self).buf@),
+//@|     r is Ok ==> r->Ok_0 == leaf_cells(old(self).buf@)[old(self).slot as int].1,
+//@end
+
+// C26.tree.cursor.advance — a scan step neither skips nor invents an entry: it moves to the next slot of
+// the same leaf, or over EMPTY leaves only to the first entry of the next non-empty leaf of the chain;
+// it reports the end only when every remaining leaf of the chain is empty.  Termination not proved.
+//@extract nervusdb-storage/src/index/btree.rs BTreeCursor::advance ret r
+//@attr #[verifier::exec_allows_no_decreases_clause]
+//@| requires old(self).ok(), tree_pages_ok(old(self).pager),
+//@| ensures final(self).pager == old(self).pager,
+//@|     r is Ok ==> final(self).ok(),
+//@|     (r is Ok && r->Ok_0) ==> final(self).slot < pg_count(final(self).buf@)
+//@|         && ((final(self).leaf == old(self).leaf && final(self).slot == old(self).slot + 1 && final(self).buf@ == old(self).buf@)
+//@|             || (old(self).slot + 1 >= pg_count(old(self).buf@) && exists|n: nat| #[trigger] BTreeCursor::skipped_to(old(self), final(self), n))),
+//@|     (r is Ok && !r->Ok_0) ==> old(self).slot + 1 >= pg_count(old(self).buf@) && exists|n: nat| #[trigger] BTreeCursor::exhausted(old(self), n),
+//@proof before 1 "=loop {" raw
+//@| let ghost mut nn: nat = 0;
+//@prewrite "self.slot = 0;" => "self.slot = 0; proof { nn = nn + 1; }"
+//@loop "loop" 
+//@| invariant self.pager == old(self).pager, tree_pages_ok(self.pager), self.ok(), old(self).ok(),
+//@|     old(self).slot + 1 >= pg_count(old(self).buf@),
+//@|     self.leaf.0 == leaf_at(old(self).pager, old(self).leaf.0, nn),
+//@|     forall|j: nat| 1 <= j <= nn ==> leaf_at(old(self).pager, old(self).leaf.0, j) != 0 && pg_count(pg(old(self).pager, #[trigger] leaf_at(old(self).pager, old(self).leaf.0, j))) == 0,
+//@proof before 1 "=return Ok(false);"
+//@| assert(BTreeCursor::exhausted(old(self), nn));
+//@proof before 2 "=return Ok(true);"
+//@| assert(BTreeCursor::skipped_to(old(self), self, nn));
+//@end
+}
+
 //@canary|pub proof fn canary_leaf_wf(b: Seq<u8>) requires leaf_wf(b), pg_count(b) == 3, keys_sorted(leaf_cells(b)), leaf_cells(b)[0].0 == leaf_cells(b)[1].0 ensures false {}
 //@canary|pub proof fn canary_internal_wf(b: Seq<u8>) requires internal_wf(b), pg_count(b) == 2, seps_sorted(int_seps(b)) ensures false {}
 //@canary|pub proof fn canary_insert_fits(b: Seq<u8>, k: Seq<u8>) requires leaf_wf(b), pg_count(b) == 1, k.len() == 300, 24 + 2 * pg_count(b) + 2 + vlen(k.len() as u32) + k.len() + 8 <= pg_begin(b) ensures false {}
